@@ -1,6 +1,216 @@
 import OtelVerif.Common.Line
 import OtelVerif.Model.C07
-/-! driver for C07 (stub) -/
-def main : IO UInt32 := do
-  IO.eprintln "drv_c07: not built yet"
-  return 2
+import OtelVerif.Model.C07Map
+/-! driver for C07: model `c07-ptrslice` (heap model of generated pointer slices) -/
+open OtelVerif OtelVerif.Line OtelVerif.C07
+
+namespace OtelVerif.Drivers.C07
+
+def parseVals (s : String) : Option (List Nat) :=
+  if s = "-" then some [] else
+  -- a nil element (only a defect exposes one) reads as 2^64, which no uint64 field can hold
+  (s.splitOn ",").mapM (fun t => if t = "nil" then some 18446744073709551616 else t.toNat?)
+
+def showVals (l : List Nat) : String :=
+  if l.isEmpty then "-" else ",".intercalate (l.map toString)
+
+def parseMask (s : String) : Option (List Bool) :=
+  if s = "-" then some [] else
+  s.toList.mapM (fun c => if c = '1' then some true else if c = '0' then some false else none)
+
+def parseOp (toks : List String) : Option Op :=
+  match toks with
+  | ["append", a, c] => do some (.append (← a.toNat?) (← kvNat [c] "cap"))
+  | ["set", a, i, v] => do some (.set (← a.toNat?) (← i.toNat?) (← v.toNat?))
+  | ["removeif", a, m] => do some (.removeIf (← a.toNat?) (← (kv [m] "mask").bind parseMask))
+  | ["ensurecap", a, n] => do some (.ensureCap (← a.toNat?) (← n.toNat?))
+  | ["sort", a] => do some (.sort (← a.toNat?))
+  | ["copy", a, b] => do some (.copyTo (← a.toNat?) (← b.toNat?))
+  | ["moveappend", a, b, c] => do some (.moveAndAppendTo (← a.toNat?) (← b.toNat?) (← kvNat [c] "cap"))
+  | ["markro", a] => do some (.markRO (← a.toNat?))
+  | _ => none
+
+def opKind : Op → String
+  | .append .. => "append" | .set .. => "set" | .removeIf .. => "removeif" | .ensureCap .. => "ensurecap"
+  | .sort .. => "sort" | .copyTo .. => "copy" | .moveAndAppendTo .. => "moveappend" | .markRO .. => "markro"
+
+def showModel (H : Nat) (s : St) (panicked : Bool) : String :=
+  let hs := (List.range H).map (fun a => s!"{showVals ((abs s).val a)}/{(s.hd a).cap}")
+  "obs " ++ (if panicked then "panic" else "ok") ++ " " ++ " ".intercalate hs
+
+/-- parse the implementation's `obs ok|panic v/c v/c …` -/
+def parseObs (toks : List String) : Option (Bool × List (List Nat)) :=
+  match toks with
+  | _ :: r :: hs =>
+    let p := if r = "panic" then some true else if r = "ok" then some false else none
+    p.bind fun p => (hs.mapM (fun h => parseVals ((h.splitOn "/").headD ""))).map (fun l => (p, l))
+  | _ => none
+
+/-- The heap is a function in the model; compiled, a chain of `upd`/`assign` closures is re-run on every
+lookup.  After each step the driver re-tabulates it (extensionally the same function: ids `≥ next`
+are never written and read 0). -/
+def normalize (s : St) : St :=
+  let arr := ((List.range s.next).map s.objs).toArray
+  { s with objs := fun j => arr.getD j 0 }
+
+structure DS where
+  H : Nat := 0
+  m : St := St.init
+  impl : PSt := PSt.init          -- what the implementation showed last (ro flags: by the ops)
+  pending : Option Op := none
+  step : Nat := 0
+  fail : Option String := none
+
+def classify (H : Nat) (before : PSt) (op : Op) (after : Nat → List Nat) (panicked : Bool) : String :=
+  let r := pstep before op
+  let k := opKind op
+  if r.2 != panicked then
+    (if panicked then s!"C07/ptrslice/{k}-unexpected-panic" else s!"C07/ptrslice/{k}-missing-panic")
+  else if (List.range H).any (fun a => !(targets op).contains a && after a != before.val a) then
+    s!"C07/ptrslice/{k}-changed-unrelated-value"
+  else if panicked then s!"C07/ptrslice/{k}-panic-changed-state"
+  else s!"C07/ptrslice/{k}-result-differs"
+
+def handler : Handler DS where
+  init := {}
+  onCase := fun s toks => { s with H := (kvNat toks "h").getD 0 }
+  onOp := fun s toks =>
+    match parseOp toks with
+    | some op =>
+      let (m', p) := C07.step s.m op
+      let m' := normalize m'
+      ({ s with m := m', pending := some op, step := s.step + 1 }, [showModel s.H m' p])
+    | none => ({ s with pending := none }, ["obs bad-op"])
+  onObs := fun s toks =>
+    match s.pending, parseObs toks with
+    | some op, some (p, l) =>
+      let after : Nat → List Nat := fun a => l.getD a []
+      let ok := obsStep s.H s.impl op after p
+      let fail := match s.fail with
+        | some f => some f
+        | none => if ok then none else
+            some s!"sig={classify s.H s.impl op after p} step={s.step} op={opKind op} expected={(List.range s.H).map (fun a => showVals ((pstep s.impl op).1.val a))} got={l.map showVals}"
+      { s with impl := { val := after, ro := (pstep s.impl op).1.ro }, pending := none, fail := fail }
+    | _, none => { s with fail := s.fail <|> some "sig=C07/ptrslice/unparsable-observation" }
+    | none, _ => s
+  onEnd := fun s =>
+    match s.fail with
+    | some f => [s!"prop valuesem=FAIL {f}"]
+    | none => ["prop valuesem=ok"]
+
+/-! ## model `c07-map`: heap model of `pcommon.Map` -/
+namespace MapD
+open OtelVerif.C07.M
+
+def showAV : AV → String
+  | .nil => "n"
+  | .scalar k v => s!"c{k}.{v}"
+  | .bytes bs => "b" ++ (if bs.isEmpty then "" else hexBytes bs)
+
+def showEntries (l : List Entry) : String :=
+  if l.isEmpty then "-" else ",".intercalate (l.map (fun e => s!"{e.1}:{showAV e.2}"))
+
+def parseAV (t : String) : Option AV :=
+  if t = "n" then some .nil
+  else if t.startsWith "c" then
+    match ((t.drop 1).toString.splitOn ".") with
+    | [k, v] => do some (.scalar (← k.toNat?) (← v.toNat?))
+    | _ => none
+  else if t.startsWith "b" then
+    let h := (t.drop 1).toString
+    if h.isEmpty then some (.bytes []) else (unhexBytes h).map .bytes
+  else none
+
+def parseEntries (t : String) : Option (List Entry) :=
+  if t = "-" then some [] else
+  (t.splitOn ",").mapM (fun e =>
+    match e.splitOn ":" with
+    | [k, v] => do some ((← k.toNat?), (← parseAV v))
+    | _ => none)
+
+def parseOp (toks : List String) : Option M.Op :=
+  match toks with
+  | ["put", a, k, kind, v, c] => do some (.putScalar (← a.toNat?) (← k.toNat?) (← kind.toNat?) (← v.toNat?) (← kvNat [c] "cap"))
+  | ["putempty", a, k, c] => do some (.putEmpty (← a.toNat?) (← k.toNat?) (← kvNat [c] "cap"))
+  | ["putb", a, k, h, c] => do some (.putBytes (← a.toNat?) (← k.toNat?) (← unhexBytes h) (← kvNat [c] "cap"))
+  | ["bapp", a, k, x] => do some (.bytesAppend (← a.toNat?) (← k.toNat?) (← x.toNat?))
+  | ["remove", a, k] => do some (.remove (← a.toNat?) (← k.toNat?))
+  | ["removeif", a, m] => do some (.removeIf (← a.toNat?) (← (kv [m] "mask").bind parseMask))
+  | ["ensurecap", a, n] => do some (.ensureCap (← a.toNat?) (← n.toNat?))
+  | ["clear", a] => do some (.clear (← a.toNat?))
+  | ["copy", a, b] => do some (.copyTo (← a.toNat?) (← b.toNat?))
+  | ["move", a, b] => do some (.moveTo (← a.toNat?) (← b.toNat?))
+  | ["markro", a] => do some (.markRO (← a.toNat?))
+  | _ => none
+
+def opKind : M.Op → String
+  | .putScalar .. => "put" | .putEmpty .. => "putempty" | .putBytes .. => "putbytes" | .bytesAppend .. => "bytesappend"
+  | .remove .. => "remove" | .removeIf .. => "removeif" | .ensureCap .. => "ensurecap" | .clear .. => "clear"
+  | .copyTo .. => "copy" | .moveTo .. => "move" | .markRO .. => "markro"
+
+def normalize (s : M.St) : M.St :=
+  let arr := ((List.range s.next).map s.w).toArray
+  { s with w := fun j => arr.getD j [] }
+
+def showModel (H : Nat) (s : M.St) (panicked : Bool) : String :=
+  let hs := (List.range H).map (fun a => s!"{showEntries ((M.abs s).val a)}/{(s.hd a).cap}")
+  "obs " ++ (if panicked then "panic" else "ok") ++ " " ++ " ".intercalate hs
+
+def parseObs (toks : List String) : Option (Bool × List (List Entry)) :=
+  match toks with
+  | _ :: r :: hs =>
+    let p := if r = "panic" then some true else if r = "ok" then some false else none
+    p.bind fun p => (hs.mapM (fun h => parseEntries ((h.splitOn "/").headD ""))).map (fun l => (p, l))
+  | _ => none
+
+structure DS where
+  H : Nat := 0
+  m : M.St := M.St.init
+  impl : M.PSt := M.PSt.init
+  pending : Option M.Op := none
+  step : Nat := 0
+  fail : Option String := none
+
+def classify (H : Nat) (before : M.PSt) (op : M.Op) (after : Nat → List Entry) (panicked : Bool) : String :=
+  let r := M.pstep before op
+  let k := opKind op
+  if r.2 != panicked then
+    (if panicked then s!"C07/map/{k}-unexpected-panic" else s!"C07/map/{k}-missing-panic")
+  else if (List.range H).any (fun a => !(M.targets op).contains a && after a != before.val a) then
+    s!"C07/map/{k}-changed-unrelated-value"
+  else if panicked then s!"C07/map/{k}-panic-changed-state"
+  else s!"C07/map/{k}-result-differs"
+
+def handler : Handler DS where
+  init := {}
+  onCase := fun s toks => { s with H := (kvNat toks "h").getD 0 }
+  onOp := fun s toks =>
+    match parseOp toks with
+    | some op =>
+      let (m', p) := M.step s.m op
+      let m' := normalize m'
+      ({ s with m := m', pending := some op, step := s.step + 1 }, [showModel s.H m' p])
+    | none => ({ s with pending := none }, ["obs bad-op"])
+  onObs := fun s toks =>
+    match s.pending, parseObs toks with
+    | some op, some (p, l) =>
+      let after : Nat → List Entry := fun a => l.getD a []
+      let ok := M.obsStep s.H s.impl op after p
+      let fail := match s.fail with
+        | some f => some f
+        | none => if ok then none else
+            some s!"sig={classify s.H s.impl op after p} step={s.step} op={opKind op} expected={(List.range s.H).map (fun a => showEntries ((M.pstep s.impl op).1.val a))} got={l.map showEntries}"
+      { s with impl := { val := after, ro := (M.pstep s.impl op).1.ro }, pending := none, fail := fail }
+    | _, none => { s with fail := s.fail <|> some "sig=C07/map/unparsable-observation" }
+    | none, _ => s
+  onEnd := fun s =>
+    match s.fail with
+    | some f => [s!"prop mapvaluesem=FAIL {f}"]
+    | none => ["prop mapvaluesem=ok"]
+
+end MapD
+
+end OtelVerif.Drivers.C07
+
+def main : IO UInt32 :=
+  runMulti [("c07-ptrslice", run OtelVerif.Drivers.C07.handler), ("c07-map", run OtelVerif.Drivers.C07.MapD.handler)]
